@@ -115,6 +115,43 @@ theorem edge_ring_walk_terminates (r : Ring) (hI : RingInv r) (x : Nat) (hx : x 
   have := chain_walk r.next r.first r.ms hch x hx
   simpa [hhd] using this
 
+/-- a walk that exits at "`edge_next_ix` closes the ring" exits wherever the `last_ix` walk does -/
+theorem walk_cjk_of_walk (next : Nat → Option Nat) (first last : Nat) (stop valid : Nat → Bool)
+    (hcl : next last = some first) :
+    ∀ (f x : Nat), walk next last f x = true → walkCjk next first stop valid f x = true := by
+  intro f
+  induction f with
+  | zero => intro x h; simp [walk] at h
+  | succ f ih =>
+    intro x h
+    unfold walk at h
+    unfold walkCjk
+    by_cases hs : stop x = true
+    · simp [hs]
+    · by_cases hx : x = last
+      · subst hx; simp [hs, hcl]
+      · simp only [hx, if_false] at h
+        by_cases hnf : next x = some first
+        · simp [hs, hnf]
+        · cases hn : next x with
+          | none => simp [hs, hn]
+          | some y =>
+            simp only [hn, Option.getD_some] at h
+            by_cases hv : valid y = true
+            · have := ih y h
+              simp [hs, hn, hv, this] at hnf ⊢
+            · simp [hs, hn, hv]
+
+/-- **The CJK link walk of `compute_edges` terminates**: under the ring invariant of the candidate edge, started at
+its `first_ix` (or any of its segments), whatever the data exit and the table bounds do, it breaks within
+(number of segments of the edge) iterations — at the latest at `last_ix`, whose `edge_next_ix` is `first_ix`. -/
+theorem edge_ring_cjk_walk_terminates (r : Ring) (hI : RingInv r) (stop valid : Nat → Bool) (x : Nat) (hx : x ∈ r.ms) :
+    walkCjk r.next r.first stop valid r.ms.length x = true :=
+  walk_cjk_of_walk r.next r.first r.last stop valid hI.2.2.2 _ x (edge_ring_walk_terminates r hI x hx)
+
+example : walkCjk (append (append (newEdge (fun _ => none) 7) 3) 9).next 7 (fun _ => false) (fun _ => true) 3 7 = true := by decide
+example : walkCjk (append (append (newEdge (fun _ => none) 7) 3) 9).next 7 (fun _ => false) (fun _ => true) 2 7 = false := by decide
+
 example : walk (append (append (newEdge (fun _ => none) 7) 3) 9).next 9 3 7 = true := by decide
 example : (append (append (newEdge (fun _ => none) 7) 3) 9).next 9 = some 7 := by decide
 
